@@ -12,6 +12,7 @@ def handle : Handler
   | "build", [a] => do let a ← hx a; pure (xh (build a))
   | "compare", [a, b] => do let a ← hx a; let b ← hx b; pure (toString (Semver.compare a b))
   | "max", [a, b] => do let a ← hx a; let b ← hx b; pure (xh (Semver.max a b))
+  | "canonicalversion", [a] => do let a ← hx a; pure (xh (canonicalVersion a))
   | "sort", [l] => do let l ← hxList l; pure (xhList (sort l))
   | _, _ => none
 
